@@ -8,7 +8,7 @@ use crate::ours::{decode_from, encode, Container, Spec};
 use crate::util::{first_diff, Rng};
 use crate::walk;
 
-pub const STEER: u64 = 24;
+pub const STEER: u64 = 26;
 
 pub fn n_cases(ctx: &Ctx) -> u64 {
     let base = match (ctx.variant.as_str(), ctx.thorough()) {
@@ -163,7 +163,32 @@ pub fn make_case(ctx: &Ctx, idx: u64) -> Case {
     }
 }
 
+/// Decoder-only steering: hand-built LZMA2 streams at the limits of the chunk size fields.
+fn handmade_case(idx: u64) -> Vec<CaseOut> {
+    let chunk = if idx == 24 { 65536 } else { 65535 };
+    let mut r = Rng::new(idx);
+    let (stream, data) = crate::mt::handmade_lzma2(&mut r, 2, 2, chunk, true);
+    let cell = format!("lzma2-handmade|uncompressed-chunk-{chunk}");
+    let desc = format!("hand-built LZMA2 stream: 2 units x 2 uncompressed chunks of {chunk} bytes");
+    let spec = Spec { c: Container::Lzma2 { chunk: None }, o: LZMAOptions::new(1 << 20, 3, 0, 2, EncodeMode::Fast, 32, MFType::HC4, 0) };
+    match catch(|| decode_from(&spec, stream.as_slice(), 0, &[4096], data.len() + 4096)) {
+        Err(p) => vec![CaseOut::viol(cell, format!("dec-panic lzma2-handmade @{}", p.site()), p.short_msg(), desc)],
+        Ok(d) => {
+            if !d.drain.is_ok() {
+                vec![CaseOut::viol(cell, format!("dec-err lzma2-handmade {}", d.drain.err_string()), "valid stream of maximal uncompressed chunks rejected", desc)]
+            } else if d.drain.out != data {
+                vec![CaseOut::viol(cell, "mismatch lzma2-handmade", first_diff(&d.drain.out, &data), desc)]
+            } else {
+                vec![CaseOut::held(cell, true, desc)]
+            }
+        }
+    }
+}
+
 pub fn run_case(ctx: &Ctx, idx: u64) -> Vec<CaseOut> {
+    if idx == 24 || idx == 25 {
+        return handmade_case(idx);
+    }
     let case = make_case(ctx, idx);
     let mut dr = Rng::new(case.data_seed);
     let mut data = gen::gen_data(&mut dr, case.fam, case.len);
